@@ -166,6 +166,9 @@ def main():
         malformed = rng.random() < 0.25
         op = L.gen_op(rng, bs, malformed)
         one_case(run, reqs, spec, op, "td:malformed" if malformed else "td:valid", spelling=rng.choice([0, 0, 1, 2]), lock=rng.random() < 0.2)
+        if rng.random() < 0.3:
+            # extended domain: the same case on a lazy stack / a tensorclass (oracle only)
+            L.run_container(run, spec, op, rng.choice(["lazy", "tc"]), rng, malformed)
         if len(reqs) >= 500:
             flush(run, drv, reqs)
     flush(run, drv, reqs)
